@@ -965,6 +965,14 @@ class Crystal(object):
                     super[1, 2] = -int(u)
                     modified = True
 
+        if not modified and self.dim > 2:
+            # pairwise reduction can stall on a vector that only gets shorter by adding *both* of the others
+            # (e.g., hexagonal a3 = c + a1 + a2, where every pairwise projection is exactly 1/2)
+            for s0, s1 in itertools.product((1, -1), repeat=2):
+                if asq[0, 0] + asq[1, 1] + 2*(s0*asq[0, 2] + s1*asq[1, 2] + s0*s1*asq[0, 1]) < -1e-8*asq[2, 2]:
+                    super[0, 2], super[1, 2] = s0, s1
+                    modified = True
+                    break
         if not modified:
             return
         self.lattice = np.dot(self.lattice, super)
